@@ -212,7 +212,8 @@ def gen_nest(rng, i, quick):
             script.append(NX(1))
         gate, moves = a, 1
         first = nodes[a]["kids"][0] if nodes[a]["kids"] else None
-        if first and first[1] in IN_BODY and rng.random() < 0.4:
+        if first and first[1] in ("own", "give", "keep_fin") and rng.random() < 0.4:
+            # (not keep_drop: an object inside its own __del__ cannot be looked at from outside)
             gate, moves = first[0], 2
         script.append(["tclose", 0, gate, moves])
         broots = [b] + [j for j in range(nn) if _root_of(j, parent) == b]
